@@ -196,6 +196,24 @@ ANALYZER_MODULES = ("hta.analyzers.breakdown_analysis", "hta.analyzers.communica
                     "hta.analyzers.cuda_kernel_analysis", "hta.analyzers.cupti_counter_analysis", "hta.analyzers.straggler_analysis", "hta.analyzers.timeline", "hta.trace_diff")
 
 
+def check_no_shared_state(db, chk, rule: str, why: str) -> None:
+    """only the shared-state clause of check_stateless, over every analyzer module: nothing computed from one trace's data (e.g. a table keyed by that
+    trace's symbol ids) is kept in a module- or class-level container where the analysis of the next trace would find it"""
+    n = 0
+    for mn in ANALYZER_MODULES:
+        if mn not in db.modules:
+            continue
+        mod = db.mod(mn)
+        for q, f in _top_functions(mod):
+            if (mn, q) in STATE_EXEMPT:
+                continue
+            n += 1
+            sm = H.shared_state_mutations(mod, f)
+            if sm:
+                chk.ob(rule, f"{mn}:{q} keeps nothing derived from a trace in a module- or class-level container", False, mod.loc(f), found=sm, accepted="no such store", why=why, key=f"{mn}:{q}|shared-state")
+    chk.ob(rule, "analyzer functions inspected for state that outlives a trace", True if n >= 40 else None, "hta/analyzers", found=n, accepted=">= 40", nontrivial=False)
+
+
 def check_shared_trace_untouched(db, chk, rule: str) -> None:
     """Every analysis reads the ONE Trace object of the TraceAnalysis session. A property about one analysis therefore also needs that NO other
     analysis replaces or edits the containers of that object (through a parameter, an alias or a shallow copy): otherwise the result depends on
